@@ -1853,6 +1853,19 @@ class Engine:
                 raise Unsupported("slice store in finite mode")
             s2 = st.with_cell(base.base, base.field, new)
             return k(s2.assume(ax))
+        if isinstance(base, Arr) and base.field is not None and base.ncols is None and isinstance(v, Vec):
+            # x[lo:hi] = <vector>: numpy demands equal lengths (ValueError otherwise, an obligation here); element-wise copy
+            a, ln = self.norm_slice(lo, hi, base.n)
+            self.oblige("safety", "the vector stored has the length of the slice it is stored into", st, v.n == ln, node)
+            arr = self.heap_field(st.heap, base.base, base.field)
+            new = self.fresh(f"{base.base}.{base.field}", arr.sort())
+            j = z3.Int("ssj")
+            inside = z3.And(base.lo + a <= j, j < base.lo + a + ln)
+            ax = z3.ForAll([j], z3.Select(new, j) == z3.If(inside, self.num(v.fn(j - base.lo - a), arr.range()), z3.Select(arr, j)),
+                           patterns=[z3.Select(new, j)])
+            if self.S.finite is not None:
+                raise Unsupported("slice store in finite mode")
+            return k(st.with_cell(base.base, base.field, new).assume(ax))
         raise Unsupported(f"slice store into {type(base).__name__}")
 
     def ex_AugAssign(self, s, st, fr, k):
